@@ -144,7 +144,8 @@ Definition find (s d : ety) : option (nrank * vrank) :=
 Record param := mkParam { p_scalar : scalar; p_dim : dim; p_out : bool; p_const : bool }.
 Record signature := mkSig { s_id : N; s_params : list param; s_non_default : nat }.
 
-Definition param_ety (p : param) : ety := mkEty (p_scalar p) (p_dim p) (p_out p) (p_const p).
+(* strip_param_type: as seen from the signature a parameter type carries no const *)
+Definition param_ety (p : param) : ety := mkEty (p_scalar p) (p_dim p) (p_out p) false.
 
 Fixpoint casts_of (ps : list param) (args : list ety) : option (list (nrank * vrank)) :=
   match ps, args with
